@@ -47,6 +47,7 @@ type World struct {
 	N       *node.Node
 	R       *rand.Rand
 	Pending map[types.Address][]types.Hash // confirmed sends to user accounts not yet received
+	ToContracts []types.Hash               // recent confirmed sends addressed to embedded contracts
 	Fusions []lock
 	Stakes  []lock
 	Htlcs   []htlc
@@ -133,6 +134,12 @@ func (w *World) scan() {
 			if b.IsSendBlock() && !types.IsEmbeddedAddress(b.ToAddress) {
 				w.Pending[b.ToAddress] = append(w.Pending[b.ToAddress], b.Hash)
 			}
+			if b.IsSendBlock() && types.IsEmbeddedAddress(b.ToAddress) && b.Amount != nil && b.Amount.Sign() > 0 {
+				w.ToContracts = append(w.ToContracts, b.Hash)
+				if len(w.ToContracts) > 8 {
+					w.ToContracts = w.ToContracts[1:]
+				}
+			}
 		}
 	}
 	w.scanned = w.N.Height()
@@ -159,6 +166,11 @@ func (w *World) Step() {
 		}
 		w.submit("transfer", u, &nom.AccountBlock{BlockType: nom.BlockTypeUserSend, ToAddress: w.user().Address, TokenStandard: t, Amount: w.amount(50)})
 	case k < 8: // receive something pending (by the addressee, sometimes by a stranger)
+		if len(w.ToContracts) > 0 && w.R.Intn(4) == 0 {
+			// a user account tries to receive a send that was addressed to an embedded contract
+			w.submit("receive-of-contract-send", u, &nom.AccountBlock{BlockType: nom.BlockTypeUserReceive, FromBlockHash: w.ToContracts[w.R.Intn(len(w.ToContracts))]})
+			break
+		}
 		for a, list := range w.Pending {
 			if len(list) == 0 {
 				continue
